@@ -646,7 +646,7 @@ int main(int argc, char** argv) {
     vh::init(argc, argv, "C17");
     const bool thorough = vh::g.thorough();
     uint64_t idx = 0;
-    const int eblocks = thorough ? 3000 : 500;
+    const int eblocks = thorough ? 100000 : 3000;
     for (int b = 0; b < eblocks; ++b) {
         if (!vh::mine(idx++)) {
             continue;
@@ -654,7 +654,7 @@ int main(int argc, char** argv) {
         vh::Rng r = vh::rng_for("elem", b);
         elementwise(r, 48);
     }
-    const int rblocks = thorough ? 3000 : 500;
+    const int rblocks = thorough ? 60000 : 3000;
     for (int b = 0; b < rblocks; ++b) {
         if (!vh::mine(idx++)) {
             continue;
